@@ -92,6 +92,9 @@ def times_family(gen):
         {"unix": "1600000000", "ns": 0, "zone": "utc"}, {"unix": "1600000000", "ns": 120000000, "zone": "utc"},
         {"unix": "1600000000", "ns": 123456000, "zone": "utc"}, {"unix": "1600000000", "ns": 123456789, "zone": "local"},
         {"unix": "1599955200", "ns": 0, "zone": "utc"}, {"unix": "1599955200", "ns": 0, "zone": "local"},
+        {"unix": "1599955200", "ns": 1, "zone": "utc"}, {"unix": "1599955200", "ns": 1000, "zone": "utc"},
+        {"unix": "1599955200", "ns": 500000000, "zone": "utc"}, {"unix": "1599955200", "ns": 999999999, "zone": "utc"},
+        {"unix": "0", "ns": 500000000, "zone": "utc"}, {"unix": "86400", "ns": 7, "zone": "utc"},
         {"unix": "253402300799", "ns": 0, "zone": "utc"}, {"unix": "-62135596800", "ns": 0, "zone": "utc"},
         {"unix": "-62167219200", "ns": 0, "zone": "utc"},
         {"unix": "1600000000", "ns": 0, "zone": "fixed:28800"}, {"unix": "1600000000", "ns": 5000, "zone": "fixed:-18000"},
@@ -134,6 +137,8 @@ def probe_family(gen):
         "complex": (T("complex128"), ["0x3ff0000000000000", "0x4000000000000000"]),
         "complexslice": (Slice(T("complex128")), [["0x3ff0000000000000", "0x4000000000000000"], ["0x3ff0000000000000", "0x0000000000000000"]]),
         "bigrat": (Ptr(T("bigrat")), {"v": "22/7"}),
+        "bigratint": (Ptr(T("bigrat")), {"v": "6/3"}),
+        "bigfloat": (Ptr(T("bigfloat")), {"v": {"s": "1.5", "prec": 53}}),
         "bigint": (Ptr(T("bigint")), {"v": "123456789012345678901234567890"}),
         "pslice": (Ptr(Slice(T("int"))), {"v": ["1"]}),
         "pmap": (Ptr(Map(S, T("int"))), {"v": [[hx(b"pm"), "1"]]}),
@@ -152,20 +157,30 @@ def probe_family(gen):
         def X():
             return {"t": xt, "v": json.loads(json.dumps(xv))}
         pid = gen.next_ptr
-        gen.next_ptr += 1
+        qid = gen.next_ptr + 1
+        gen.next_ptr += 2
+        P = Ptr(Reg("Inner"))
+        # s1, p1 are registered BEFORE X; s2, p2 AFTER it: a miscount at X shifts the indices the encoder
+        # gives to s2/p2 (and the reader does not follow), a missing count shifts them the other way
         items = [{"t": S, "v": hx(b"probe-str")},
-                 {"t": Ptr(Reg("Inner")), "v": {"id": pid, "v": {"X": "42", "Y": hx(b"shared-inner")}}},
+                 {"t": P, "v": {"id": pid, "v": {"X": "42", "Y": hx(b"shared-inner")}}},
                  X(),
+                 {"t": S, "v": hx(b"after-x")},
+                 {"t": P, "v": {"id": qid, "v": {"X": "43", "Y": hx(b"second-inner")}}},
                  {"t": S, "v": hx(b"probe-str")},
-                 {"t": Ptr(Reg("Inner")), "v": {"ref": pid}},
+                 {"t": P, "v": {"ref": pid}},
+                 {"t": S, "v": hx(b"after-x")},
+                 {"t": P, "v": {"ref": qid}},
                  X(),
-                 {"t": S, "v": hx(b"probe-str")},
-                 {"t": Ptr(Reg("Inner")), "v": {"ref": pid}}]
+                 {"t": S, "v": hx(b"after-x")},
+                 {"t": P, "v": {"ref": qid}}]
         cases.append({"t": Slice(IFACE), "v": items, "tag": "probe:" + name})
-        # the same inside a struct with typed fields after X
-        cases.append({"t": Anon([("S1", S, ""), ("P1", Ptr(Reg("Inner")), ""), ("X", xt, ""), ("S2", S, ""), ("P2", Ptr(Reg("Inner")), "")]),
+        # the same inside a struct with typed fields around X
+        cases.append({"t": Anon([("S1", S, ""), ("P1", P, ""), ("X", xt, ""), ("S2", S, ""), ("P2", P, ""),
+                                 ("S3", S, ""), ("P3", P, ""), ("S4", S, ""), ("P4", P, "")]),
                       "v": {"S1": hx(b"probe-str"), "P1": {"id": pid + 100000, "v": {"X": "1", "Y": hx(b"yy")}}, "X": json.loads(json.dumps(xv)),
-                            "S2": hx(b"probe-str"), "P2": {"ref": pid + 100000}},
+                            "S2": hx(b"after-x"), "P2": {"id": qid + 100000, "v": {"X": "2", "Y": hx(b"zz")}},
+                            "S3": hx(b"probe-str"), "P3": {"ref": pid + 100000}, "S4": hx(b"after-x"), "P4": {"ref": qid + 100000}},
                       "tag": "probefield:" + name})
     return cases
 
@@ -192,6 +207,82 @@ def graphs_family(gen, n):
             td = Ptr(Reg(name))
             cases.append({"t": td, "v": gen.value(td, 0, {"pool": {}, "cycles": True}), "modes": ["ref"], "tag": "graph:cyc:" + name})
             cases.append({"t": td, "v": gen.value(td, 0, {"pool": {}, "cycles": False}), "tag": "graph:share:" + name})
+    return cases
+
+
+def slices2d_family(gen):
+    """Two-dimensional slices of every fast-path element type (and the generic path), with referable
+    content repeated ACROSS rows: the per-row vs up-front reference accounting must agree with the
+    stream order (C02) and nil rows must be written the way the typed path writes them."""
+    S = T("string")
+    cases = []
+    rep = hx(b"alpha")
+    pid = gen.next_ptr
+    gen.next_ptr += 1
+    inner = {"t": Ptr(Reg("Inner")), "v": {"id": pid, "v": {"X": "1", "Y": hx(b"inner")}}}
+    cases.append({"t": Slice(Slice(IFACE)), "tag": "slice2d:iface",
+                  "v": [[{"t": S, "v": rep}, {"t": T("int"), "v": "1"}], [{"t": S, "v": rep}, {"t": S, "v": hx(b"gamma")}], None,
+                        [inner, {"t": Ptr(Reg("Inner")), "v": {"ref": pid}}, {"t": S, "v": hx(b"gamma")}]]})
+    cases.append({"t": Slice(Slice(IFACE)), "tag": "slice2d:iface", "v": [[{"t": S, "v": rep}], [{"t": S, "v": rep}]]})
+    cases.append({"t": Slice(Slice(S)), "tag": "slice2d:string", "v": [[rep, hx(b"beta")], [rep, hx(b"beta")], [], None, [rep]]})
+    cases.append({"t": Anon([("A", Slice(Slice(IFACE)), ""), ("S", S, "")]), "tag": "slice2d:iface-field",
+                  "v": {"A": [[{"t": S, "v": rep}], [{"t": S, "v": hx(b"beta")}]], "S": rep}})
+    for k in ["int", "int8", "int16", "int32", "int64", "uint", "uint16", "uint32", "uint64", "bool", "float32", "float64", "complex64", "complex128"]:
+        e = T(k)
+        rows = [[gen.rand_scalar(k) for _ in range(gen.rng.choice([1, 2]))], [], None, [gen.rand_scalar(k)]]
+        cases.append({"t": Anon([("A", Slice(Slice(e)), ""), ("S1", S, ""), ("S2", S, "")]), "tag": "slice2d:" + k,
+                      "v": {"A": rows, "S1": rep, "S2": rep}})
+    cases.append({"t": Anon([("A", Slice(Slice(T("uint8"))), ""), ("S1", S, ""), ("S2", S, "")]), "tag": "slice2d:bytes",
+                  "v": {"A": [["1", "2"], None, [], ["3"]], "S1": rep, "S2": rep}})
+    cases.append({"t": Anon([("A", Slice(Slice(Reg("Inner"))), ""), ("S1", S, ""), ("S2", S, "")]), "tag": "slice2d:struct",
+                  "v": {"A": [[{"X": "1", "Y": rep}], None, [{"X": "2", "Y": rep}]], "S1": rep, "S2": rep}})
+    cases.append({"t": Slice(Slice(Slice(S))), "tag": "slice3d:string", "v": [[[rep], [rep]], [[rep]]]})
+    return cases
+
+
+def sequences_family(gen, n):
+    """Several values written to ONE encoder (shared reference and class tables), with Reset in between."""
+    S = T("string")
+    cases = []
+    pool = [
+        lambda: {"t": S, "v": hx(gen.rng.choice([b"alpha", b"beta", b"alpha", "中文".encode(), b"a", b""]))},
+        lambda: {"t": Reg("Inner"), "v": {"X": str(gen.rng.randint(-5, 500)), "Y": hx(gen.rng.choice([b"alpha", b"yy"]))}},
+        lambda: {"t": Reg("One"), "v": {"V": str(gen.rng.randint(0, 20))}},
+        lambda: {"t": Slice(S), "v": [hx(b"alpha"), hx(b"beta"), hx(b"alpha")]},
+        lambda: {"t": T("int"), "v": str(gen.rng.randint(-100, 100000))},
+        lambda: {"t": Slice(T("uint8")), "v": ["1", "2", "3"]},
+        lambda: {"t": T("time"), "v": {"unix": "1600000000", "ns": 0, "zone": "utc"}},
+        lambda: {"t": Map(S, T("int")), "v": [[hx(b"alpha"), "1"]]},
+        lambda: {"t": Anon([("Aa", T("int"), ""), ("Bb", S, "")]), "v": {"Aa": "1", "Bb": hx(b"alpha")}},
+        lambda: {"t": Ptr(Reg("Inner")), "v": {"v": {"X": "9", "Y": hx(b"beta")}}},
+        lambda: {"t": T("float64"), "v": "0x400921fb54442d18"},
+    ]
+    fixed = [
+        [("encode", 1), ("reset",), ("encode", 1)],                       # same struct type again after Reset
+        [("encode", 1), ("encode", 1), ("encode", 0), ("encode", 0)],     # class and string reuse without Reset
+        [("encode", 0), ("reset",), ("encode", 0)],
+        [("encode", 8), ("encode", 8), ("reset",), ("encode", 8)],
+        [("encode", 2), ("reset",), ("encode", 1), ("reset",), ("encode", 2), ("encode", 1)],
+    ]
+    scripts = list(fixed)
+    for _ in range(n):
+        L = gen.rng.randint(2, 6)
+        sc = []
+        for _ in range(L):
+            if gen.rng.random() < 0.25 and sc:
+                sc.append(("reset",))
+            else:
+                sc.append(("encode", gen.rng.randrange(len(pool))))
+        scripts.append(sc)
+    for sc in scripts:
+        seq = []
+        for st in sc:
+            if st[0] == "reset":
+                seq.append({"op": "reset"})
+            else:
+                x = pool[st[1]]()
+                seq.append({"op": "encode", "t": x["t"], "v": x["v"]})
+        cases.append({"seq": seq, "t": T("string"), "v": "", "tag": "seq:encoder"})
     return cases
 
 
